@@ -168,6 +168,21 @@ theorem C20_equals_ignores_padding_partial (m : Module) (hm : moduleWF m = true)
     hle rfl hsd hcov K sz hsz' hlen0 k hk wx fuel
   rw [← e1, e2]
 
+/-- Corollary for copies: after a successful copy (`dst'` starts with the source's first `sz`
+bytes) `dst'.Equals(src)` has the same value as `src.Equals(src)`: "the destination Equals the
+source" reduces to reflexivity of `Equals` on the (Ok) source, which is not proved here (it needs a
+fuel/nesting argument) and is checked on the real code by `EQ` on identical buffers. -/
+theorem C20_copy_dest_equals_src_partial (m : Module) (hm : moduleWF m = true) (sd : StructDef)
+    (hsd : structWF m sd = true) (hcov : SizeCovers m sd) (ps : List Val) (src dst' : List Nat)
+    (K : Nat) (sz : Int)
+    (hsz : (G m (K + 1)).read (rootView sd ps src) [sd.sizeField] = some (.int sz))
+    (h0 : 0 ≤ sz) (hfit : sz ≤ src.length) (hcopy : dst'.take sz.toNat = src.take sz.toNat)
+    (k : Nat) (hk : k ≤ K) (fuel : Nat) :
+    viewEquals (G m k) m fuel (rootView sd ps dst') (rootView sd ps src) =
+      viewEquals (G m k) m fuel (rootView sd ps src) (rootView sd ps src) :=
+  (C20_equals_ignores_padding_partial m hm sd hsd hcov ps src dst' K sz hsz h0 hfit hcopy k hk
+    (rootView sd ps src) fuel).symm
+
 /-! ### non-vacuity -/
 
 /-- `struct Ex: 0 [+1] UInt tag; if tag == 1: 1 [+2] UInt a; 3 [+tag] UInt:8[] arr` (C01's example):
